@@ -1011,6 +1011,27 @@ def check_C20(chk):
             break
         elif res.error:
             raise ToolError("MC TempName: %s" % res.error)
+    # 1b. unbounded: for the program <<fetch_add>> the inductive invariant of mech/TempNameProof is checked by the TLA+ proof system -
+    # any set of threads, any number of calls.  (A failed or unavailable proof run is a failure of the machinery, never a verdict;
+    # for any other extracted program the bounded exploration above and the schedule replay below decide alone.)
+    if prog == ["fetch_add"]:
+        import shutil, subprocess, time
+        pdir = os.path.join(chk.work, "tlaps")
+        os.makedirs(pdir, exist_ok=True)
+        shutil.copy(os.path.join(vlib.TLA_DIR, "mech", "TempNameProof.tla"), pdir)
+        t0 = time.time()
+        try:
+            pr = subprocess.run(["tlapm", "--threads", "8", "--cleanfp", "TempNameProof.tla"], cwd=pdir, stdout=subprocess.PIPE, stderr=subprocess.STDOUT, text=True, timeout=900)
+        except (subprocess.TimeoutExpired, FileNotFoundError) as e:
+            raise ToolError("tlapm did not finish: %s" % e)
+        m = re.search(r"All (\d+) obligations? proved", pr.stdout)
+        if not m:
+            raise ToolError("tlapm could not prove mech/TempNameProof:\n%s" % pr.stdout[-2000:])
+        chk.cov["stages"].append({"stage": "TLAPS: Spec => []Unique for the extracted program <<fetch_add>>, any set of threads, any number of calls "
+                                           "(inductive invariant Inv of mech/TempNameProof)", "obligations_proved": int(m.group(1)), "wall_s": round(time.time() - t0, 2)})
+        chk.cov["unbounded_proof"] = {"module": "tla/mech/TempNameProof.tla", "obligations_proved": int(m.group(1)), "tool": "tlapm"}
+    else:
+        chk.cov["unbounded_proof"] = {"note": "mech/TempNameProof covers the program <<fetch_add>> only; extracted: %s" % prog}
     # 2. the real code under every schedule of a few concurrent calls (no model of the program needed)
     if not chk.violations:
         for nthreads, steps, mixed in [(2, 5, False), (3, 3, False), (3, 4, False), (2, 6, True), (3, 3, True)] + ([(3, 5, False), (4, 3, False), (3, 4, True)] if chk.thorough else []):
